@@ -16,13 +16,13 @@ const kyb = "github.com/corestario/kyber"
 
 var c04Sanitizers = []string{
 	// public by construction
-	kyb + ".(Point).Mul",                              // public key = secret * G
-	kyb + "/sign/tbls.Sign",                           // partial signature
-	kyb + "/sign/bls.Sign",                            // signature
-	kyb + "/encrypt/ecies.Encrypt",                    // ciphertext
-	kyb + "/share/vss/pedersen.(Dealer).Commits",      // public commitments of the dealer polynomial
-	kyb + "/share/dkg/pedersen.(DistKeyGenerator).Deals",          // deals are encrypted by kyber to each addressee's long-term key
-	kyb + "/share/dkg/pedersen.(DistKeyGenerator).ProcessDeal",    // response (public)
+	kyb + ".(Point).Mul",                                       // public key = secret * G
+	kyb + "/sign/tbls.Sign",                                    // partial signature
+	kyb + "/sign/bls.Sign",                                     // signature
+	kyb + "/encrypt/ecies.Encrypt",                             // ciphertext
+	kyb + "/share/vss/pedersen.(Dealer).Commits",               // public commitments of the dealer polynomial
+	kyb + "/share/dkg/pedersen.(DistKeyGenerator).Deals",       // deals are encrypted by kyber to each addressee's long-term key
+	kyb + "/share/dkg/pedersen.(DistKeyGenerator).ProcessDeal", // response (public)
 	kyb + "/share/dkg/pedersen.(DistKeyGenerator).ProcessResponse",
 	kyb + "/share/dkg/pedersen.(DistKeyGenerator).Certified",
 	kyb + "/share/dkg/pedersen.(DistKeyShare).Public",
